@@ -191,6 +191,26 @@ type feedItem struct {
 }
 
 func (in *Interp) readFrame(fr *frame, src Value) Value {
+	if it, ok := src.(Iface); ok && it.T != nil {
+		if mo, ok := it.V.(*Obj); ok && mo.Kind == "multireader" {
+			for _, part := range mo.items {
+				pi, _ := part.(Iface)
+				if pc, ok := pi.V.(*Value); ok {
+					if bo := in.side[pc]; bo != nil && bo.Kind == "bytesreader" {
+						if len(bo.items) > 0 {
+							p := bo.items[0]
+							bo.items = bo.items[1:]
+							in.emit("read.frame", "buffered-plaintext", "plain")
+							return Tuple{p, Iface{}}
+						}
+						continue
+					}
+				}
+				return in.readFrame(fr, part)
+			}
+			return Tuple{(*Value)(nil), in.externalGlobalByName("io.EOF")}
+		}
+	}
 	raw, t := in.rawConn(src)
 	if raw == nil {
 		in.unsupported("ReadPacket from unknown reader")
@@ -392,6 +412,53 @@ func registerEnvIntrinsics() {
 		o.F["dst"] = args[0]
 		in.side[cell] = o
 		return cell, true
+	}
+	// bytes already read ahead into a bufio.Reader: frames the client pipelined in
+	// the same segment (connection flag "pipelined")
+	I["(*bufio.Reader).Buffered"] = func(in *Interp, fr *frame, args []Value) (Value, bool) {
+		o := in.sideObj(args[0], "bufreader")
+		raw, _ := in.rawConn(o.F["src"])
+		if raw == nil {
+			return Int(0), true
+		}
+		if p := raw.F["pipelined"]; p == nil || !in.branch(p, "client pipelines plaintext") {
+			return Int(0), true
+		}
+		n := 0
+		for _, it := range raw.feed[raw.n:] {
+			if it.kind == "packet" {
+				n++
+			} else {
+				break
+			}
+		}
+		return Int(n), true
+	}
+	I["io.ReadFull"] = func(in *Interp, fr *frame, args []Value) (Value, bool) {
+		rd, _ := args[0].(Iface)
+		cell, _ := rd.V.(*Value)
+		o := in.side[cell]
+		buf, ok := args[1].(Slice)
+		if o == nil || o.Kind != "bufreader" || !ok {
+			in.unsupported("io.ReadFull from %v", rd.T)
+		}
+		raw, _ := in.rawConn(o.F["src"])
+		if raw == nil {
+			in.unsupported("io.ReadFull: no connection")
+		}
+		var pk []Value
+		for raw.n < len(raw.feed) && raw.feed[raw.n].kind == "packet" && len(pk) < buf.n {
+			pk = append(pk, raw.feed[raw.n].pkt)
+			raw.n++
+		}
+		in.drained[buf.arr] = pk
+		in.emit("readahead.drain", in.connName(o.F["src"]), fmt.Sprint(len(pk)))
+		return Tuple{Int(buf.n), Iface{}}, true
+	}
+	I["io.MultiReader"] = func(in *Interp, fr *frame, args []Value) (Value, bool) {
+		o := in.newObj("multireader")
+		o.items = variadicArgs(args[0])
+		return in.ifaceOf(o), true
 	}
 	I["(*bufio.Writer).Write"] = func(in *Interp, fr *frame, args []Value) (Value, bool) {
 		o := in.sideObj(args[0], "bufwriter")
